@@ -400,6 +400,15 @@ const CELLS: [isize; 6] = [-2, -1, 0, 1, 2, 3];
 
 fn gen_expr<C: CellType>(r: &mut Rng) -> Expr<C> {
     let consts = [C::ZERO, C::ONE, C::from_u8(2), C::NEG_ONE, C::from_u8(7)];
+    // a third of the assignments are plain moves / constants / increments: what value numbering,
+    // copy elimination and dead-store elimination feed on (park a value, overwrite, move it back)
+    match r.below(9) {
+        0 => return Expr::var(CELLS[r.below(6) as usize]),
+        1 => return Expr::var(CELLS[r.below(3) as usize + 2]),
+        2 => return Expr::val(consts[r.below(5) as usize]),
+        3 => return Expr::var(CELLS[r.below(6) as usize]).add(Expr::val(consts[1 + r.below(4) as usize])),
+        _ => {}
+    }
     let mut e = Expr::val(consts[r.below(5) as usize]);
     let terms = r.below(5);
     for _ in 0..terms {
